@@ -512,7 +512,7 @@ def native(tier, seed, bdir, only=None):
     rc, o, e, secs = sh([exe, str(seed), str(samples)], 3600)
     rec = {"unit": uid, "route": "B", "kind": "native (all 114 complexes on 4 vertices; values sampled from VERIF_SEED)", "status": "ok", "cases": 0, "failures": [],
            "seconds": round(secs, 2), "bound": f"every simplicial complex on the vertices 0..3; {samples} value assignments from {{0,1,2,3}} per complex and option set; option sets default, full_featured, int-valued, int-valued with stable handles",
-           "desc": "filtration_simplex_range (each simplex once, non-decreasing, faces first, canonical, history- and option-independent), insert_simplex_and_subfaces (minimum rule), make_filtration_non_decreasing, prune_above_filtration at every threshold, copy-assignment over a filled cache"}
+           "desc": "filtration_simplex_range (each simplex once, non-decreasing, faces first, canonical, history- and option-independent), insert_simplex_and_subfaces (minimum rule), make_filtration_non_decreasing, prune_above_filtration at every threshold, copy-assignment over a filled cache, explicit re-initialisation over an existing cache, move construction / assignment (the moved-from tree lists what it holds), extend_filtration over an existing cache (2n+1 simplices, valid range)"}
     try:
         js = json.loads(o.strip().split("\n")[-1])
         rec["cases"] = rec["obligations"] = js["checked"]
